@@ -280,6 +280,13 @@ fn first_diff(case: &Case, a: &Report, b: &Report) -> Option<(Option<usize>, Str
                     _ => "other".to_string(),
                 }
             };
+            // one root cause, many operations: the emulated resolver verifies positions by
+            // reading /proc/thread-self/fd/N, which fails with ENAMETOOLONG once the object's
+            // absolute path no longer fits PATH_MAX (the in-root path still does)
+            let giant = serde_json::to_string(op).map(|s| s.len() >= 3000).unwrap_or(false);
+            if giant && y.errno == Some(libc::ENAMETOOLONG) && x.errno != Some(libc::ENAMETOOLONG) {
+                return Some((Some(i), format!("step {} {}:\n  kernel  : {:?}\n  emulated: {:?}", i, op.brief(), x, y), "diff:giant-path:emulated-ENAMETOOLONG".to_string()));
+            }
             let nul = if op.has_nul() { ":nul" } else { "" };
             return Some((Some(i), format!("step {} {}:\n  kernel  : {:?}\n  emulated: {:?}", i, op.brief(), x, y), format!("diff:{}:{}{}", op.name(), what, nul)));
         }
